@@ -136,6 +136,15 @@ def impl(case):
                     sdump.setdefault(t.root().task_uuid, []).append([t.is_complete(), forests.dump_real(t.root())])
                 results[-1]["stream_same"] = (sdump == dump)
                 results[-1]["stream_order_ok"] = [t.is_complete() for t in streamed] == sorted([t.is_complete() for t in streamed], reverse=True)
+                # a lazy input: how many messages had been read when each task was handed out
+                consumed = [0]
+
+                def lazy():
+                    for j in order:
+                        consumed[0] += 1
+                        yield dicts[j]
+                results[-1]["stream_when"] = [[t.root().task_uuid, bool(t.is_complete()), consumed[0]]
+                                              for t in Parser.parse_stream(lazy())]
             except Exception as e:
                 results[-1]["stream_same"] = "error:" + type(e).__name__
     # real == across orders with the same set of messages
@@ -230,6 +239,20 @@ def oracle(case, obs):
             return "parse_stream differs from message-by-message add: %r" % (r.get("stream_same"),)
         if r.get("stream_order_ok") is False:
             return "parse_stream yielded an incomplete task before a completed one"
+        if "stream_when" in r:
+            done_at = {}
+            for i, step in enumerate(r["steps"]):
+                for u in step:
+                    done_at[u] = i + 1
+            for u, complete, consumed in r["stream_when"]:
+                if complete and consumed != done_at.get(u):
+                    return ("parse_stream (lazy input) handed out completed task %s after reading %d messages; its last "
+                            "message was number %r" % (u, consumed, done_at.get(u)))
+                if not complete and consumed != len(order):
+                    return "parse_stream handed out incomplete task %s before the end of the input" % u
+            if sorted(u for u, _, _ in r["stream_when"]) != sorted(r["tasks"]):
+                return "parse_stream (lazy input) handed out tasks %r, message-by-message parsing %r" % (
+                    sorted(u for u, _, _ in r["stream_when"]), sorted(r["tasks"]))
     # same set of messages => same final result
     runs = obs["runs"]
     for a in range(len(runs)):
@@ -259,7 +282,51 @@ def describe(case):
     return out
 
 
+# ---- long streams: more than 1000/2000 messages, tasks straddling any internal batching ------------------------
+def gen_long(rng, tier):
+    cases = []
+    for i in range(2 if tier == "quick" else 10):
+        target = rng.choice([1050, 2100, 3300]) if i % 2 else 1200
+        forest = []
+        while len(forests.linearize(forest)) < target:
+            forest += forests.gen_forest(rng, 8, 4, 3)
+        msgs = forests.linearize(forest)
+        ids = list(range(len(msgs)))
+        tasks = {}
+        for j in ids:
+            tasks.setdefault(msgs[j]["u"], []).append(j)
+        # a few long-lived tasks open from the start to the end, the others come and go in between
+        seqs = [list(js) for js in tasks.values()]
+        rng.shuffle(seqs)
+        longlived, rest = seqs[:5], seqs[5:]
+        merged = [s.pop(0) for s in longlived if s]
+        live = []
+        while rest or live:
+            if rest and (len(live) < 4 or rng.random() < 0.2):
+                live.append(rest.pop(0))
+            k = rng.randrange(len(live))
+            for _ in range(rng.choice([1, 1, 2, 5])):
+                if live[k]:
+                    merged.append(live[k].pop(0))
+            live = [x for x in live if x]
+            if rng.random() < 0.02:
+                for s in longlived:
+                    if len(s) > 1:
+                        merged.append(s.pop(0))
+        for s in longlived:
+            merged += s
+        drop = set(rng.sample(ids, 3))
+        cases.append({"msgs": msgs, "orders": [merged, [j for j in merged if j not in drop]]})
+    return cases
+
+
+def nontrivial_long(case, obs):
+    return json.dumps([len(case["msgs"]), case["orders"][0][:50]])
+
+
 FAMILIES = [
     Family("forests", gen, impl, model_expr, model_obs, oracle, nontrivial, imports=["Base.Level", "Model.Parser"],
            project=project, describe=describe, shard=20, coq_shard=10, case_timeout=30),
+    # no model evaluation here (a thousand-message association list per step is slow inside Coq): the statement only
+    Family("long_streams", gen_long, impl, None, None, oracle, nontrivial_long, describe=describe, shard=1, case_timeout=120),
 ]
